@@ -294,6 +294,11 @@ struct pool_policy
                        fmt("next_capacity() promised %zu bytes, growth added %zu nodes of %zu", before.nextcap, gained, before.list_ns));
             if (r.kind == 0 && !before.list_empty)
                 t.fail("M-nogrow", "grew-with-free-node", "single node request grew the pool although the free list still held a node");
+            // an array that needs ONE node (count * element size <= node size) is a single node request as well
+            if (r.kind == 1 && taken == 1 && !before.list_empty)
+                t.fail("M-nogrow", "grew-with-free-node",
+                       fmt("array request of %u x %u bytes needs one node of %zu bytes and grew the pool although the free list still held a node", r.count,
+                           r.size, before.list_ns));
         }
         // maxima are upper bounds (C18)
         if (r.fam >= 1)
